@@ -813,4 +813,77 @@ theorem Corpus.get_apply (c : Corpus T) (b : List (Doc T)) (id : Id) :
     · simp [hd]
 
 
+/-! ### counting under one change (document frequency), observational equality -/
+
+section AList
+variable {K V : Type} [DecidableEq K]
+
+/-- how many bindings satisfy `p` after `aput` -/
+theorem length_filter_aput (l : List (K × V)) (k : K) (v : V) (p : K × V → Bool) :
+    ((aput l k v).filter p).length + ((alookup l k).toList.filter (fun v0 => p (k, v0))).length
+      = (l.filter p).length + (if p (k, v) then 1 else 0) := by
+  induction l with
+  | nil => cases hp : p (k, v) <;> simp [aput, alookup, hp]
+  | cons e rest ih =>
+    obtain ⟨a, b⟩ := e
+    by_cases h : a = k
+    · subst h
+      simp only [aput, if_true, alookup, List.filter_cons, Option.toList]
+      cases p (a, v) <;> cases p (a, b) <;> simp <;> omega
+    · simp only [aput, h, if_false, alookup, List.filter_cons]
+      cases p (a, b) <;> simp <;> omega
+
+theorem length_filter_aerase {l : List (K × V)} (hn : (akeys l).Nodup) (k : K) (p : K × V → Bool) :
+    ((aerase l k).filter p).length + ((alookup l k).toList.filter (fun v0 => p (k, v0))).length
+      = (l.filter p).length := by
+  induction l with
+  | nil => simp [aerase, alookup]
+  | cons e rest ih =>
+    obtain ⟨a, b⟩ := e
+    simp only [akeys, List.map_cons, List.nodup_cons] at hn
+    by_cases h : a = k
+    · subst h
+      have : aerase rest a = rest := aerase_of_not_mem hn.1
+      simp only [aerase, if_true, this, alookup, List.filter_cons, Option.toList]
+      cases p (a, b) <;> simp
+    · have := ih hn.2
+      simp only [aerase, h, if_false, alookup, List.filter_cons]
+      cases p (a, b) <;> simp <;> omega
+end AList
+
+/-- document frequency after one change: the changed document leaves the count of `t` if it held
+`t` and enters it if its new text holds `t` -/
+theorem specDf_set {c : Corpus T} (h : c.WF) (id : Id) (toks : List T) (t : T) :
+    specDf (c.set id toks) t + (if t ∈ c.get id then 1 else 0) = specDf c t + (if t ∈ toks then 1 else 0) := by
+  have hget : ((alookup c id).toList.filter (fun v0 => (fun e : Id × List T => decide (t ∈ e.2)) (id, v0))).length
+      = (if t ∈ c.get id then 1 else 0) := by
+    unfold Corpus.get
+    cases alookup c id with
+    | none => simp
+    | some v0 => by_cases hv : t ∈ v0 <;> simp [hv]
+  unfold specDf Corpus.set
+  by_cases he : toks.isEmpty
+  · have ht : toks = [] := List.isEmpty_iff.mp he
+    subst ht
+    simp only [List.isEmpty_nil, if_true]
+    have := length_filter_aerase h.nodup id (fun e : Id × List T => decide (t ∈ e.2))
+    rw [hget] at this
+    simp [this]
+  · rw [if_neg he]
+    have := length_filter_aput c id toks (fun e : Id × List T => decide (t ∈ e.2))
+    rw [hget] at this
+    simpa using this
+
+
+/-- everything a search reads from an index: corpus size, postings (membership and size), which
+documents have a record, and each record's length and frequencies -/
+def ObsEq (ix ix' : Index T) : Prop :=
+  ix.numDocs = ix'.numDocs ∧
+  (∀ t id, id ∈ getSet ix.sets t ↔ id ∈ getSet ix'.sets t) ∧
+  (∀ t, (getSet ix.sets t).length = (getSet ix'.sets t).length) ∧
+  (∀ id, (alookup ix.docs id).isSome = (alookup ix'.docs id).isSome) ∧
+  (∀ id r r', alookup ix.docs id = some r → alookup ix'.docs id = some r' →
+    r.length = r'.length ∧ ∀ t, freqOf r t = freqOf r' t)
+
+
 end Sema.C05
